@@ -1098,6 +1098,55 @@ fn rec_acc(o: &mut Out, r: &mut Rng, draws: u64) {
     one!(DQuat);
 }
 
+// ------------------------------------------------------------------------------------------ matrix access histories (Trace_C06)
+fn rec_macc_ty<M: hx::mt::MT>(o: &mut Out, r: &mut Rng, steps: u64) {
+    use hx::mt::MObs;
+    use hx::tv::Scalar;
+    let (rr, cc) = (M::R, M::C);
+    let mask = <M::S as Scalar>::SC.mask();
+    let rb = |r: &mut Rng| -> u64 { match r.below(6) { 0 => 0, 1 => mask, 2 => (mask >> 1) + 1, _ => r.next() & mask } };
+    let bitsof = |m: &M| -> Vec<u64> { m.flat().iter().map(|x| x.to_u64()).collect() };
+    let start: Vec<M::S> = (0..rr * cc).map(|_| <M::S as Scalar>::from_u64(rb(r))).collect();
+    let mut m = M::from_flat(&start);
+    o.emit(json!({"k": "macc", "op": "begin", "ty": M::NAME, "r": rr, "c": cc, "obs": hexs(&bitsof(&m))}));
+    let ctors = ["from_cols_array", "from_cols_array_2d", "from_cols_slice", "from_cols", "free_fn"];
+    let writes = ["col_mut", "as_mut", "field"];
+    let reads = ["to_cols_array", "to_cols_array_2d", "write_cols_to_slice", "as_ref", "cols", "rows", "fields", "transpose"];
+    for _ in 0..steps {
+        match r.below(10) {
+            0 => {
+                let path = ctors[r.below(ctors.len() as u64) as usize];
+                let vals: Vec<u64> = (0..rr * cc).map(|_| rb(r)).collect();
+                let f: Vec<M::S> = vals.iter().map(|x| <M::S as Scalar>::from_u64(*x)).collect();
+                if let Some(nm) = M::ctor(path, &f) {
+                    m = nm;
+                    o.emit(json!({"k": "macc", "op": "ctor", "ty": M::NAME, "path": path, "vals": hexs(&vals), "obs": hexs(&bitsof(&m))}));
+                }
+            }
+            1..=4 => {
+                let path = writes[r.below(writes.len() as u64) as usize];
+                let (wr, wc) = (r.below(rr as u64) as usize, r.below(cc as u64) as usize);
+                let val = rb(r);
+                if m.write(path, wr, wc, <M::S as Scalar>::from_u64(val)) {
+                    o.emit(json!({"k": "macc", "op": "write", "ty": M::NAME, "path": path, "r": wr, "c": wc, "val": format!("{:#x}", val), "obs": hexs(&bitsof(&m))}));
+                }
+            }
+            _ => {
+                let path = reads[r.below(reads.len() as u64) as usize];
+                if let Some(MObs::Flat(l)) = m.read(path) {
+                    let ob: Vec<u64> = l.iter().map(|x| x.to_u64()).collect();
+                    o.emit(json!({"k": "macc", "op": "read", "ty": M::NAME, "path": path, "obs": hexs(&ob)}));
+                }
+            }
+        }
+    }
+}
+fn rec_macc(o: &mut Out, r: &mut Rng, draws: u64) {
+    use glam::*;
+    macro_rules! one { ($($M:ident),*) => { $( rec_macc_ty::<$M>(o, r, 16 * draws); )* }; }
+    one!(Mat2, Mat3, Mat3A, Mat4, DMat2, DMat3, DMat4, Affine2, Affine3A, DAffine2, DAffine3);
+}
+
 // ------------------------------------------------------------------------------------------ replay of one event
 fn unlimbs(v: &[Value]) -> u128 {
     let mut m: u128 = 0;
@@ -1218,6 +1267,7 @@ fn main() {
         "mat" => rec_mat(&mut o, &mut r, draws),
         "rel" => rec_rel(&mut o, &mut r, draws),
         "acc" => rec_acc(&mut o, &mut r, draws),
+        "macc" => rec_macc(&mut o, &mut r, draws),
         _ => panic!("mode"),
     }
     o.w.flush().unwrap();
